@@ -1133,6 +1133,85 @@ def d4_once(chk: Check) -> None:
                      "printed twice (and survives --except once)")
 
 
+def d3g_classification_is_not_optional(chk: Check) -> None:
+    """`Searches.search_anchor` does two things: it judges the anchor name
+    against the expression (only when anchor names are searched) and it
+    *records* the anchor in the shared seen-anchors list, which is what
+    later tells an alias from its original.  The `search_anchors` option is
+    therefore an argument of the call, never a condition around it: a key
+    whose anchor was not recorded makes every later `*alias` of it look
+    like an original, and excluded aliases are reported."""
+    prog = chk.prog
+    chk.rule("C07-D3g", "no call of Searches.search_anchor in the search "
+             "walkers stands under a test of the search_anchors option",
+             floor=3)
+    n = 0
+    for q in ("yaml_paths.search_for_paths", "yaml_paths.yield_children"):
+        fi = prog.func(q)
+        for c in walk_local(fi.node):
+            if not (isinstance(c, ast.Call) and
+                    src(c.func).endswith("search_anchor")):
+                continue
+            n += 1
+            guard = [f for f in facts_at(c) if f.kind == "cond" and any(
+                isinstance(x, ast.Name) and x.id == "search_anchors"
+                for x in ast.walk(f.expr))]
+            text = "{}: search_anchor({}, ...)".format(
+                fi.short, src(c.args[0]) if c.args else "")
+            if guard:
+                chk.fail("C07-D3g", fi, c, text,
+                         "the classification runs only when anchor names "
+                         "are searched: without it the anchor is never "
+                         "recorded as seen, and a later alias of the same "
+                         "node is reported although aliases are excluded")
+            else:
+                chk.ok("C07-D3g", fi, c, text, "unconditional")
+    if n < 3:
+        raise AnalysisError("search_anchor calls: {}".format(n))
+
+
+def d3h_reference_paths_name_real_anchors(chk: Check) -> None:
+    """A merge reference is reported as `<hash>[&name]`.  The name is the
+    key under which the anchors table holds *that very node* -- found by
+    scanning the table for it.  Reading `ref_node.anchor.value` instead
+    looks equivalent, but an in-line merge source (`<<: {colour: blue}`)
+    has an anchor object whose value is None: the path `h[&None]` is
+    reported whenever the text "None" satisfies the expression, and it
+    resolves to nothing."""
+    prog = chk.prog
+    chk.rule("C07-D3h", "every `[&{}]` path piece of yaml-paths is filled "
+             "with a name iterated from the anchors table", floor=1)
+    fi = prog.func("yaml_paths.search_for_paths")
+    n = 0
+    for c in walk_local(fi.node):
+        if not (isinstance(c, ast.Call) and isinstance(c.func, ast.Attribute)
+                and c.func.attr == "format" and
+                isinstance(c.func.value, ast.Constant) and
+                isinstance(c.func.value.value, str) and
+                "[&{}]" in c.func.value.value):
+            continue
+        n += 1
+        names = {x.id for a in c.args for x in ast.walk(a)
+                 if isinstance(x, ast.Name)}
+        from_table = False
+        for a in ancestors(c):
+            if isinstance(a, ast.For) and ".items()" in src(a.iter) and \
+                    "anchors" in src(a.iter) and \
+                    isinstance(a.target, ast.Tuple) and \
+                    src(a.target.elts[0]) in names:
+                from_table = True
+        text = "search_for_paths: {}".format(src(c)[:60])
+        if from_table:
+            chk.ok("C07-D3h", fi, c, text, "a key of the anchors table")
+        else:
+            chk.fail("C07-D3h", fi, c, text,
+                     "the anchor name does not come from the anchors table: "
+                     "a merged node without an anchor of its own yields the "
+                     "path `[&None]`, which no query resolves")
+    if n < 1:
+        raise AnalysisError("[&{}] path pieces: {}".format(n))
+
+
 def run(chk: Check) -> None:
     d1_escaping(chk)
     d1b_separator_always(chk)
@@ -1149,6 +1228,8 @@ def run(chk: Check) -> None:
     d7_descent_kinds(chk)
     d7b_expansion_kinds(chk)
     d3f_merge_references(chk)
+    d3g_classification_is_not_optional(chk)
+    d3h_reference_paths_name_real_anchors(chk)
     from rules.shared import shared_dest_defaults_rule
     shared_dest_defaults_rule(chk, "C07-D10", (PATHS,), 1)
     from rules.shared import merge_identity_rule
